@@ -6,10 +6,10 @@ S-expression syntax of the Lean driver command `scope` (the model side)."""
 import random
 
 VAL_NAMES = ["a", "b", "c", "x"]
-FN_NAMES = ["f", "g", "a", "x"]          # overlap with value names on purpose
+FN_NAMES = ["f", "gg", "a", "x"]          # overlap with value names on purpose
 CONST_NAMES = ["k", "c"]
 TYPE_NAMES = ["T", "U"]
-VARIANT_NAMES = ["A", "B", "T"]          # `T` both a type and a constructor: separate namespaces
+VARIANT_NAMES = ["A", "Bb", "T"]          # `T` both a type and a constructor: separate namespaces
 MOD_NAMES = ["m1", "m2", "m3"]
 LABELS = ["p", "q"]
 BUILTINS = []                            # the prelude constructors are written capitalised; not used here
@@ -58,6 +58,7 @@ class Occ:
 class Binder:
     def __init__(self, pid, name, file, offset, kind):
         self.pid, self.name, self.file, self.offset, self.kind = pid, name, file, offset, kind
+        self.is_fn = None       # True: bound to a lambda literal (function-typed local); None: unknown
 
 
 class Module:
@@ -358,6 +359,8 @@ class ScopeGen:
                 sx_e = self.expr(em, ctx, env, ctx["depth"] + 1)
                 if wild:
                     self.stream_stack.pop()
+                if sx_p.startswith("(pvar ") and sx_e.startswith("(lam ") and frame:
+                    frame[-1][1].is_fn = True
                 out.append(f"(let {sx_p} {sx_e})")
                 env = [frame] + env
             elif not last and k == 3:
